@@ -33,9 +33,18 @@ func Witness(signers []Signer, acc []byte, depth int) bool {
 // fault only where it differs from the Alphabet account); 2 a single member;
 // 3 a stranger; 4 Alphabet with scope None; 5 Alphabet with scope
 // CalledByEntry (valid at call depth 0); 6 nobody; 7 Alphabet plus a stranger.
+//
+// In a world with fewer validators than committee members the validators'
+// account is a stranger to the contracts: class 3 is that account, and every
+// other class-0 set carries it next to the Alphabet (a witness more than
+// needed changes nothing).
 func AlphaSignerClass(w *World, class int, stranger *keys.PrivateKey) ([]Signer, string) {
+	few := w.Validator.Hash != w.Alphabet.Hash && w.Validator.Hash != w.Committee.Hash
 	switch class {
 	case 0:
+		if few && w.nonce%2 == 1 {
+			return []Signer{w.Alphabet, w.Validator}, ""
+		}
 		return []Signer{w.Alphabet}, ""
 	case 1:
 		if w.Committee.Hash == w.Alphabet.Hash {
@@ -50,6 +59,9 @@ func AlphaSignerClass(w *World, class int, stranger *keys.PrivateKey) ([]Signer,
 	case 2:
 		return []Signer{Single("member0", w.Privs[0])}, "wit.single"
 	case 3:
+		if few {
+			return []Signer{w.Validator}, "wit.validators_account"
+		}
 		return []Signer{Single("stranger", stranger)}, "wit.missing"
 	case 4:
 		return []Signer{w.Alphabet.WithScope(transaction.None)}, "wit.scope"
